@@ -523,4 +523,31 @@ def sgPrefixFreeField : Field → Bool
   | _ => true
 end
 
+/-! ## Counting: one item per present non-ignored field -/
+
+/-- does the closed value write anything (`false` exactly for an absent `Option`) -/
+def FVal.isPresent : FVal → Bool
+  | .absent => false
+  | .newtype inner _ => inner.isPresent
+  | .some inner => inner.isPresent
+  | _ => true
+
+mutual
+/-- number of items the documentation promises: one per tag, one per present plain field, the items of
+each `flatten_entry`, transitively through present flattened children; nothing for ignored fields,
+timestamps and absent `Option`s -/
+def countDef : Def → Nat
+  | .struct _ fs => countFields fs
+  | .enum _ tag _ _ _ fs => (match tag with | some _ => 1 | none => 0) + countFields fs
+def countFields : Fields → Nat
+  | .nil => 0
+  | .cons f fs => countField f + countFields fs
+def countField : Field → Nat
+  | .plain _ _ _ _ v => if v.isPresent then 1 else 0
+  | .ignore => 0
+  | .timestamp => 0
+  | .flatten _ present child => if present then countDef child else 0
+  | .flattenEntry items _ => items.length
+end
+
 end Naming
